@@ -314,6 +314,32 @@ Definition store_get (st : store) (a b : Z) : option plist :=
   map_find (pair_to_integer a b (st_N st)) (st_map st).
 
 (* ------------------------------------------------------------------------------------ *)
+(* validity of the edge table at a position (decidable form of the hypotheses of
+   Props.C19.ibd_alg_refines_spec_partial; consequences of TSK_CHECK_EDGE_ORDERING /
+   TSK_CHECK_TREES on a valid tree sequence)                                              *)
+(* ------------------------------------------------------------------------------------ *)
+
+Definition time_of (times : list Z) (u : Z) : Z := match get times u with Ok t => t | _ => 0 end.
+
+Fixpoint sortedb (times : list Z) (es : list edge) : bool :=
+  match es with
+  | [] => true
+  | e :: t => forallb (fun e' => time_of times (eparent e) <=? time_of times (eparent e')) t && sortedb times t
+  end.
+
+Fixpoint uniqb (x : Z) (es : list edge) : bool :=
+  match es with
+  | [] => true
+  | e :: t => forallb (fun e' => negb (covers e x && covers e' x && (echild e =? echild e'))) t && uniqb x t
+  end.
+
+Definition valid_atb (times : list Z) (es : list edge) (x : Z) : bool :=
+  sortedb times es && forallb (fun e => time_of times (echild e) <? time_of times (eparent e)) es && uniqb x es.
+
+Definition c19_check_valid (c : case) : bool :=
+  forallb (valid_atb (ctimes c) (cedges c)) (zrange 0 (Z.to_nat (cL c))).
+
+(* ------------------------------------------------------------------------------------ *)
 (* comparison helpers for the per-run correspondence                                     *)
 (* ------------------------------------------------------------------------------------ *)
 
